@@ -183,4 +183,30 @@ theorem verdicts_le_lines (file : List Nat) : (cliLines file).length ≤ (getlin
 example : trimLine [35, 97, 10] = none := by decide
 example : trimLine [32, 97, 64, 98, 32, 13, 10] = some [97, 64, 98] := by decide
 
+/-! ### Each line stands alone -/
+
+/-- reading a file whose first part ends with a line feed: the records are those of the first part followed by those of the rest -/
+theorem getlinesAux_append_lf : ∀ (f1 acc f2 : List Nat),
+    getlinesAux acc (f1 ++ 10 :: f2) = getlinesAux acc (f1 ++ [10]) ++ getlinesAux [] f2
+  | [], acc, f2 => by
+    simp only [List.nil_append, getlinesAux, beq_self_eq_true, if_true, List.isEmpty_nil, List.singleton_append]
+  | c :: cs, acc, f2 => by
+    simp only [List.cons_append, getlinesAux]
+    by_cases h : (c == 10) = true
+    · simp only [h, if_true]
+      rw [getlinesAux_append_lf cs [] f2]; simp
+    · simp only [h, if_false, Bool.false_eq_true]
+      exact getlinesAux_append_lf cs (c :: acc) f2
+
+/-- **each line stands alone**: for a file `f1 ++ "\n" ++ f2` the tool validates the lines of `f1 ++ "\n"` and then the lines of `f2` — what is
+handed to the validator for a line does not depend on the lines before or after it (and the validator is a function of its argument,
+C13 `isEmail_outcome`), so a line's verdict is the verdict it gets as the only line of a file -/
+theorem cliLines_append_lf (f1 f2 : List Nat) : cliLines (f1 ++ 10 :: f2) = cliLines (f1 ++ [10]) ++ cliLines f2 := by
+  unfold cliLines getlines
+  rw [getlinesAux_append_lf f1 [] f2, List.filterMap_append]
+
+/-- in particular a one-line prefix: `line ++ "\n" ++ rest` -/
+example : cliLines ([97, 64, 120, 46, 99, 111, 109, 10] ++ [97, 64, 120, 46, 99, 111, 10]) =
+          cliLines [97, 64, 120, 46, 99, 111, 109, 10] ++ cliLines [97, 64, 120, 46, 99, 111, 10] := by decide
+
 end Eav.Props.C20
